@@ -27,7 +27,8 @@ KIND_OF_CLASS = {
 }
 KIND_NAMES = ["function", "macro", "variable", "option", "generic", "ctest", "test", "section",
               "class", "module"]
-ERR_OF_CODE = {1: "decode", 2: "syntax", 3: "syntax", 4: "crash"}
+ERR_OF_CODE = {1: "decode", 2: "error", 3: "error", 4: "error"}
+ERR_DETAIL = {1: "decode", 2: "lexer", 3: "parser", 4: "aggregator-crash"}
 
 DOC_MARK = "<DOC>"
 NAME_MARK = "N"
@@ -194,13 +195,13 @@ def req_entries(c, mode):
 def dec_page(r):
     if r[0] == 0:
         return dict(status="ok", text=core.d_str(r[1]))
-    return dict(status=ERR_OF_CODE[r[0]], text=None)
+    return dict(status=ERR_OF_CODE[r[0]], text=None, detail=ERR_DETAIL[r[0]])
 
 
 def dec_entries(r):
     if r[0] == 0:
         return dict(status="ok", entries=[(k, bool(d), core.d_str(t)) for k, d, t in r[1]])
-    return dict(status=ERR_OF_CODE[r[0]], entries=None)
+    return dict(status=ERR_OF_CODE[r[0]], entries=None, detail=ERR_DETAIL[r[0]])
 
 
 def decode_preview(data, n=400):
